@@ -5,7 +5,6 @@ package crashrig
 
 import (
 	"fmt"
-	"math/big"
 	"time"
 
 	"github.com/lianxiangcloud/linkchain/config"
@@ -17,12 +16,14 @@ import (
 	"verif/sim/kernel"
 	"verif/sim/simdb"
 	"verif/sim/simnode"
+	"verif/sim/txgen"
 )
 
 // runConf is the swarm configuration of one run (head of the tape).
 type runConf struct {
 	Mode              string // crash | prune
 	IsTrie            bool
+	Utxo              bool // confidential transactions in the workload
 	Blocks            int
 	Elections         bool
 	VotePeriod        uint64
@@ -65,6 +66,7 @@ func drawConf(c *kernel.Ctx) runConf {
 		cf.Mode = "prune"
 	}
 	cf.IsTrie = t.Bool(1, 2)
+	cf.Utxo = txgen.UtxoReady() && t.Bool(2, 3)
 	cf.Elections = t.Bool(1, 2)
 	cf.VotePeriod = uint64(t.Range(2, 3))
 	cf.NCand = t.Range(2, 5)
@@ -138,9 +140,20 @@ func (w *world) genesis() (*durable, error) {
 	copy(cb[:], crypto.Keccak256([]byte("c13-coinbase-0"))[:20])
 	w.key = simnode.ValKey{Priv: seededKey("val", 0, seed), Power: 100, CoinBase: cb}
 	gen := &simnode.GenesisSpec{ChainID: "verif-c13", IsTrie: conf.IsTrie, PartSize: conf.PartSize, Vals: []simnode.ValKey{w.key}}
-	for i := 0; i < nUsers; i++ {
-		gen.Alloc = append(gen.Alloc, simnode.Alloc{Addr: userAddr(i), Balance: new(big.Int).Mul(big.NewInt(1e18), big.NewInt(1000000))})
+	kinds := []txgen.Kind{txgen.KTransfer, txgen.KCreate, txgen.KCallStore, txgen.KValueContract}
+	weights := map[txgen.Kind]int{txgen.KTransfer: 6, txgen.KCreate: 2, txgen.KCallStore: 3, txgen.KValueContract: 1}
+	if conf.Mode == "prune" {
+		kinds, weights = []txgen.Kind{txgen.KTransfer}, map[txgen.Kind]int{txgen.KTransfer: 1}
 	}
+	if conf.Utxo {
+		kinds = append(kinds, txgen.UtxoKinds...)
+		for _, k := range txgen.UtxoKinds {
+			weights[k] = 3
+		}
+	}
+	w.txg = txgen.New(w.c.Tape.Fork("workload"), txgen.Config{Accounts: 4, Kinds: kinds, Weights: weights, Utxo: conf.Utxo, Validators: []simnode.ValKey{w.key}})
+	gen.Alloc = w.txg.Alloc()
+	w.txg.KnowGenesis(config.ContractValidatorsAddr, common.EmptyAddress, w.key.CoinBase)
 	if conf.Elections {
 		gen.VotePeriod = conf.VotePeriod
 		for i := 0; i < conf.NCand; i++ {
@@ -164,43 +177,19 @@ func (w *world) genesis() (*durable, error) {
 	return &durable{img: disk.Snapshot(), dir: d0}, nil
 }
 
-func (w *world) trackedAccounts() []common.Address {
-	m := map[common.Address]bool{config.ContractFoundationAddr: true, w.key.CoinBase: true}
-	for i := 0; i < nUsers; i++ {
-		m[userAddr(i)] = true
-	}
+// extraAccounts are the accounts outside the generator's universe whose
+// balance the reference covers (they must stay untouched by the workload).
+func (w *world) extraAccounts() []common.Address {
+	out := []common.Address{w.key.CoinBase}
 	for _, cd := range w.gen.Candidates {
-		m[cd.Key.CoinBase] = true
+		out = append(out, cd.Key.CoinBase)
 	}
-	return sortedAddrs(m)
-}
-
-// planWorkload draws the transfers of heights 1..L.
-func (w *world) planWorkload(L int, maxPerBlock int) map[uint64][]*plannedTx {
-	t := w.c.Tape.Fork("workload")
-	plan := map[uint64][]*plannedTx{}
-	nonces := make([]uint64, nUsers)
-	for h := 1; h <= L; h++ {
-		n := t.Range(0, maxPerBlock)
-		for k := 0; k < n; k++ {
-			from := t.Int(nUsers)
-			to := (from + 1 + t.Int(nUsers-1)) % nUsers
-			amt := big.NewInt(int64(1 + t.Int(1000000)))
-			tx, err := userKey(from).transfer(nonces[from], userAddr(to), amt)
-			if err != nil {
-				continue
-			}
-			nonces[from]++
-			plan[uint64(h)] = append(plan[uint64(h)], &plannedTx{from: from, to: to, amount: amt, tx: tx, hash: tx.Hash()})
-		}
-	}
-	return plan
+	return out
 }
 
 func newCrashRun(w *world, g *durable) *crashRun {
-	r := &crashRun{w: w, c: w.c, ref: map[uint64]*heightRef{}, snaps: map[uint64]*durable{0: g}, evAt: map[uint64]bool{}}
-	r.tracked = w.trackedAccounts()
-	r.plan = w.planWorkload(w.conf.Blocks, 3)
+	r := &crashRun{w: w, c: w.c, ref: map[uint64]*heightRef{}, snaps: map[uint64]*durable{0: g}, evAt: map[uint64]bool{},
+		plan: map[uint64][]*txgen.Item{}, planned: map[uint64]bool{}}
 	t := w.c.Tape.Fork("workload-evidence")
 	for h := 2; h <= w.conf.Blocks; h++ {
 		if t.Bool(1, 3) {
@@ -209,12 +198,15 @@ func newCrashRun(w *world, g *durable) *crashRun {
 	}
 	// genesis reference
 	gd := simdb.NewDiskFromImage(g.img, "")
-	st, res0, err := durableState(gd, w.isTrie, 0)
+	_, res0, err := durableState(gd, w.isTrie, 0)
 	if err == nil {
-		ref := &heightRef{trieRoot: res0.TrieRoot.Hex()}
-		ref.bal, ref.nonce = r.readLedger(st)
+		ref := &heightRef{trieRoot: res0.TrieRoot.Hex(), bal: map[common.Address]string{}, nonce: map[common.Address]uint64{}}
 		if s0, err := cs.LoadStatus(gd.DB(simnode.DBStatus)); err == nil {
 			ref.status = s0.Bytes()
+		}
+		for _, a := range w.txg.L.Universe() {
+			ref.addrs = append(ref.addrs, a)
+			ref.bal[a], ref.nonce[a] = w.txg.L.Balance(txgen.Native, a).String(), w.txg.L.Nonce(a)
 		}
 		r.ref[0] = ref
 	} else {
